@@ -109,6 +109,23 @@ def size_scenario(kind):
     elif kind == "Activation_softmax":
       lay = _layer("Activation", activation="softmax", output=out)
       p_exp, a_exp = z3.IntVal(0), outb * osz
+    elif kind == "Activation_relu":
+      # no quantizer applied: counted at the reference width (not at the output width)
+      act = Obj(ExtClass("function"), {"__name__": "relu"})
+      lay = _layer("Activation", activation=act, output=out)
+      p_exp, a_exp = z3.IntVal(0), refb * osz
+    elif kind == "Activation_linear":
+      lay = _layer("Activation", activation="linear", output=out)
+      p_exp, a_exp = z3.IntVal(0), z3.IntVal(0)
+    elif kind == "Dense_relu":
+      act = Obj(ExtClass("function"), {"__name__": "relu"})
+      lay = _layer("Dense", [_weight((SNum(a), SNum(b))), _weight((SNum(b),))], activation=act, output=out)
+      p_exp, a_exp = refb * a * b + refb * b, refb * osz
+    elif kind == "QDense_unquantized_act":
+      act = Obj(ExtClass("function"), {"__name__": "relu"})
+      lay = _layer("QDense", [_weight((SNum(a), SNum(b))), _weight((SNum(b),))], [_bits_obj(SNum(kb)), _bits_obj(SNum(bb))],
+                   activation=act, output=out)
+      p_exp, a_exp = kb * a * b + bb * b, refb * osz
     elif kind == "InputLayer":
       lay = _layer("InputLayer", output=out)
       p_exp, a_exp = z3.IntVal(0), inb * osz
@@ -548,7 +565,8 @@ def bounds(vars_):
 
 def cases(tier):
   out = [Case(PROP, FF + ".delta", "delta", delta_scenario(), replay_kind="c20_delta", assumptions=ASSUME)]
-  for k in ("QDense_both", "QDense_nobiasq", "Dense", "QConv2D_qact", "QActivation_q", "Activation_softmax", "InputLayer"):
+  for k in ("QDense_both", "QDense_nobiasq", "Dense", "QConv2D_qact", "QActivation_q", "Activation_softmax", "InputLayer",
+            "Activation_relu", "Activation_linear", "Dense_relu", "QDense_unquantized_act"):
     out.append(Case(PROP, FB + "._param_size", k, size_scenario(k), bounds=bounds, replay_kind=None, assumptions=ASSUME))
   for lk in ("class_numeric", "class_list", "pattern", "absent"):
     for head in ("kernel_quantizer", "bias_quantizer", "activation"):
